@@ -14,19 +14,25 @@ namespace Dsw
 /-- accessor → latter map → accessor is the identity. -/
 theorem C14_latter_map_roundtrip (k : Nat) (a : Acc) (hk : 1 ≤ k) (h : WFdB k a) :
     latterMapToAccessor (accessorToLatterMap a) k none = .ok a := by
-  sorry
+  exact latterMap_roundtrip k a hk h
 
 /-- accessor → adjacency matrix → accessor is the identity. -/
 theorem C14_matrix_roundtrip (k : Nat) (a : Acc) (hk : 1 ≤ k) (h : WFdB k a) :
     ∃ mx, accessorToAdjacencyMatrix a = .ok mx ∧ adjacencyMatrixToAccessor mx = .ok a := by
-  sorry
+  exact ⟨adjRows a, h.adjMatrix_ok, matrix_roundtrip k a hk h⟩
 
 /-- the latter map lists exactly the live successors (in column order) of exactly the vertices
 that have any, in increasing vertex order. -/
 theorem C14_latter_map_content (k : Nat) (a : Acc) (h : WFdB k a) :
     (accessorToLatterMap a).map (·.1) = (List.range (4 ^ k)).filter (fun (v : Nat) => decide (a.live (v : Int) ≠ [])) ∧
     ∀ (v : Nat) ls, (v, ls) ∈ accessorToLatterMap a → ls = (a.live (v : Int)).map fun j => (v * 4 + j) % 4 ^ k := by
-  sorry
+  constructor
+  · rw [← h.obtainVertices_eq]
+    simp [accessorToLatterMap, Function.comp_def]
+  · intro v ls hmem
+    simp only [accessorToLatterMap, List.mem_map, Prod.mk.injEq] at hmem
+    obtain ⟨u, hu, rfl, rfl⟩ := hmem
+    exact h.liveEntries_eq ((h.mem_obtainVertices u).1 hu).1
 
 /-- the matrix has a 1 exactly at the arcs. -/
 theorem C14_matrix_content (k : Nat) (a : Acc) (mx : Matrix) (h : WFdB k a)
@@ -34,12 +40,16 @@ theorem C14_matrix_content (k : Nat) (a : Acc) (mx : Matrix) (h : WFdB k a)
     mx.size = 4 ^ k ∧ ∀ u w, u < 4 ^ k → w < 4 ^ k →
       ((mx.getD u #[]).getD w 0 = 1 ↔ ∃ j, j < 4 ∧ a.ent u j = (w : Int)) ∧
       ((mx.getD u #[]).getD w 0 = 0 ∨ (mx.getD u #[]).getD w 0 = 1) := by
-  sorry
+  have := adjMatrix_of_ok a mx hm
+  subst this
+  refine ⟨by rw [adjRows_size, h.1], fun u w hu hw => ⟨?_, ?_⟩⟩
+  · exact adjRows_one_iff a u w (by rw [h.1]; exact hu) (by rw [h.1]; exact hw)
+  · exact adjRows_bit a u w (by rw [h.1]; exact hu)
 
 /-- vertex listing returns exactly the vertices with arcs. -/
 theorem C14_vertices (k : Nat) (a : Acc) (h : WFdB k a) :
     obtainVertices a = (List.range (4 ^ k)).filter (fun (v : Nat) => decide (a.live (v : Int) ≠ [])) := by
-  sorry
+  exact h.obtainVertices_eq
 
 /-- end points of all `d`-step walks from `v`, as a list (multiset semantics via `List.Perm`). -/
 def walkEnds (a : Acc) : Nat → Nat → List Nat
@@ -52,14 +62,19 @@ theorem C14_leaves (k : Nat) (a : Acc) (v d : Nat) (h : WFdB k a) (hv : v < 4 ^ 
     obtainLeafVertices v d (some a) none = .ok (leafAcc a d [v]) ∧
     obtainLeafVertices v d none (some (accessorToLatterMap a)) = .ok (leafAcc a d [v]) ∧
     (leafAcc a d [v]).Perm (walkEnds a d v) := by
-  sorry
+  have _ := hv
+  refine ⟨rfl, ?_, ?_⟩
+  · show Except.ok (leafMap (accessorToLatterMap a) d [v]) = _
+    rw [leafMap_eq_leafAcc h]
+  · rw [leafAcc_eq_flatMap a (walkEnds a) (fun _ => rfl) (fun _ _ => rfl) d [v]]
+    simp
 
 /-- a matrix containing any arc that is not a de Bruijn shift is rejected with `ValueError`. -/
 theorem C14_illegal_matrix (k : Nat) (mx : Matrix) (u w : Nat) (hs : mx.size = 4 ^ k)
     (hu : u < 4 ^ k) (hw : w < (mx.getD u #[]).size) (h1 : (mx.getD u #[]).getD w 0 = 1)
     (hnot : w ∉ obtainLatters k u) :
     adjacencyMatrixToAccessor mx = .error .valueError := by
-  sorry
+  exact illegal_matrix k mx u w hs hu hw h1 hnot
 
 example : latterMapToAccessor (accessorToLatterMap gcBalanced2) 2 none = .ok gcBalanced2 := by decide +kernel
 example : wfdbB 2 gcBalanced2 = true := by decide +kernel
